@@ -1094,6 +1094,10 @@ func (a *Assembler) cleanSG(half *halfconnection, ac AssemblerContext) {
 		}
 		saved = last
 		nbKept += nb
+		if _, isPage := r.(*page); !isPage {
+			// pages newly created for the kept part of a packet
+			half.pages += nb
+		}
 	}
 	if *debugLog {
 		log.Printf("Remaining %d chunks in SG\n", nbKept)
@@ -1138,7 +1142,7 @@ func (a *Assembler) addPending(half *halfconnection, firstSeq Sequence) int {
 		var next *page
 		for p := half.saved; p != nil; p = next {
 			next = p.next
-			p.release(a.pc)
+			half.pages -= p.release(a.pc)
 		}
 		half.saved = nil
 		ret = []byteContainer{}
